@@ -195,18 +195,19 @@ func runC20(r *Run) {
 					case tc == nil:
 						out = "none"
 					default:
+						// which named CA the configuration trusts besides the system roots, read off the configuration itself
 						extra := "-"
 						if tc.RootCAs != nil {
-							// which named CA is in the pool besides the system roots: identified by handshake probes below; here by content name
-							if s.Kind == "inline" {
-								extra = hx(s.CA)
-							} else {
-								b, _ := os.ReadFile(path(s.File))
-								for n, c := range content {
-									if n != "" && string(c) == string(b) {
-										extra = hx(n)
-									}
+							extra = "?"
+							for _, n := range []string{"CA-A", "CA-B"} {
+								cand, _ := x509.SystemCertPool()
+								cand.AppendCertsFromPEM(content[n])
+								if tc.RootCAs.Equal(cand) {
+									extra = hx(n)
 								}
+							}
+							if sys, _ := x509.SystemCertPool(); tc.RootCAs.Equal(sys) {
+								extra = "-"
 							}
 						}
 						out = fmt.Sprintf("cfg insecure=%s extra=%s", b01(tc.InsecureSkipVerify), extra)
@@ -227,6 +228,29 @@ func runC20(r *Run) {
 					ld.refCA = s.CA
 				case "file":
 					ld.refCA = fileNow[s.File]
+				}
+				// "identical TLS settings share one configuration": settings with the same CA, file, interval and the same
+				// MEANING of skip-verify as an earlier successfully loaded one are that configuration - whatever it trusts
+				// now (e.g. the last valid content of a file that has meanwhile been overwritten with junk, or the content
+				// at load time when the file is not watched)
+				effKey := func(x tlsSetting) string {
+					k := x.Kind + "|"
+					if x.Kind == "inline" {
+						k += x.CA
+					}
+					if x.Kind == "file" {
+						k += x.File
+					}
+					return fmt.Sprintf("%s|%v|%d", k, truthy[x.Skip], x.Interval)
+				}
+				if !ld.refNoCfg {
+					for _, e := range ls {
+						if e.err == nil && !e.refNoCfg && effKey(e.s) == effKey(s) {
+							ld.refCA, ld.refInsecure = e.refCA, e.refInsecure
+							r.Dist["load:shared"]++
+							break
+						}
+					}
 				}
 				ls = append(ls, ld)
 				history = append(history, map[string]any{"load": s})
